@@ -470,7 +470,8 @@ SEED_EXPECT.update({
     'R2-C03b': ['C13', 'C20'], 'R2-C04a': ['C13', 'C20'], 'R2-C04b': ['C05', 'C13', 'C20'], 'R2-C05a': ['C05', 'C13', 'C20'],
     'R2-C05b': ['C04', 'C05'], 'R2-C06b': ['C01', 'C06', 'C10', 'C11'], 'R2-C08a': ['C05', 'C13'], 'R2-C09a': ['C04', 'C05', 'C16'],
     'R2-C10a': ['C06', 'C10', 'C11'], 'R2-C10b': ['C10'], 'R2-C11a': ['C06', 'C10', 'C11'], 'R2-C11b': ['C01', 'C06', 'C11', 'C16'],
-    'R2-C12b': ['C10'], 'R2-C13a': ['C05', 'C13', 'C20'], 'R2-C13b': ['C13', 'C20'], 'R2-C14a': ['C04', 'C10', 'C13', 'C20'],
+    'R2-C12b': ['C10'], 'R2-C13a': ['C05', 'C13', 'C20'], 'R2-C13b': ['C13', 'C20'], 'R2-C14a': ['C04', 'C10'],      # C13 / C20 reported its (sound) per-class name table until the own-dictionary guard was recognised in its `.get(F) is None` spelling (11.16)
+   
     'R2-C14b': ['C01', 'C06', 'C11', 'C16'], 'R2-C15a': ['C01', 'C06', 'C11', 'C15', 'C18'], 'R2-C15b': ['C10', 'C13', 'C20'], 'R2-C16a': ['C04', 'C05'],
     'R2-C16b': ['C01', 'C06', 'C11'], 'R2-C17a': ['C01', 'C16', 'C17', 'C18'], 'R2-C17b': ['C17'], 'R2-C18a': ['C18'],
     'R2-C18b': ['C06', 'C10', 'C11', 'C18', 'C19'], 'R2-C19a': ['C19'], 'R2-C19b': ['C19'], 'R2-C20a': ['C05', 'C13', 'C20'],
